@@ -104,7 +104,7 @@ def _reference(rng, label, cls):
     if k == 'jalx':
         return 'jal {}, {}'.format(rng.choice(['x0', 'x1', 'ra', 'x5', 'zero']), label), k
     if k == 'li':
-        return 'li {}, {}'.format(ra(), rng.choice([label, '%position({}, 0x08000000)'.format(label), '{} + 4'.format(label)])), k
+        return 'li {}, {}'.format(ra(), rng.choice([label, '%position({}, 0x08000000)'.format(label), '{} + 4'.format(label), '%offset({})'.format(label), '%offset {}'.format(label)])), k
     if k == 'hi_lo':
         r = ra()
         e = rng.choice(['%position({}, 0x20000000)'.format(label), label, '%offset({})'.format(label)])
@@ -193,6 +193,9 @@ def program(rng, size='small', big_gap=False, aligns=True, data=True, consts=Tru
     return '\n'.join(out) + '\n', meta
 
 
+NSCEN = 17
+
+
 def scenarios(rng, n):
     """Programs in which an early decision (li / call / tail size, a compression rule) is taken on a label-dependent
     value that later moves, or whose shape otherwise needs something specific.  Returns [(source, meta)]."""
@@ -200,8 +203,8 @@ def scenarios(rng, n):
     def add(src, meta=None):
         out.append((src if src.endswith('\n') else src + '\n', meta or []))
     for k in range(n):
-        t = k % 14
-        j = k // 14          # deterministic walk through the parameter lists
+        t = k % NSCEN
+        j = k // NSCEN          # deterministic walk through the parameter lists
         if t == 0:
             # li of a value that grows when the label moves down (decision on the pessimistic label)
             cnt = rng.randrange(1, 12)
@@ -283,6 +286,31 @@ def scenarios(rng, n):
         elif t == 12:
             # compressed-eligible instruction whose immediate is a constant expression
             src = 'K = 4\naddi x8, x8, K\nlw x8, K*2(x9)\naddi sp, sp, K * 4\nandi x8, x8, K - 5\n'
+            add(src)
+        elif t == 14:
+            # a CONSTANT as jump / branch target (an absolute position): the distance grows when the items in front
+            # of the jump shrink after the decision (aligns, second compression round)
+            kind, edge = [('j', 2046), ('jal', 2046), ('beqz x8,', 254), ('bnez x9,', 254), ('call', 1048574), ('tail', 1048574)][j % 6]
+            pad = rng.choice([16, 32, 64])
+            fill = rng.choice(['nop\n', 'addi x8, x8, 1\n', 'mv x5, x6\n'])
+            C = edge + pad + pad // 2 + rng.choice([0, 2, 4, 8, pad // 2, pad - 2, pad])
+            src = 'C = {}\n'.format(C) + fill * (pad // 4) + 'align {}\n{} C\n'.format(pad, kind)
+            add(src)
+        elif t == 15:
+            # li of a position-relative value of a constant: moves when the li itself moves
+            pad = rng.choice([16, 32, 64])
+            C = 2047 + pad + rng.randrange(-6, pad + 6)
+            text = 'li t1, %offset C'
+            src = 'C = {}\n'.format(C) + 'nop\n' * (pad // 4) + 'align {}\n{}\n'.format(pad, text)
+            add(src, [{'line': pad // 4 + 3, 'kind': 'li_off_const', 'label': None, 'const': C, 'text': text}])
+        elif t == 16:
+            # explicit %offset in an instruction that is not a jump: rules with != 0 / multiple-of tests
+            ins = ['addi x8, x8, %offset L', 'addi x0, x0, %offset L', 'lw x8, x9, %offset L', 'addi x2, x2, %offset L',
+                   'jalr x0, x5, %offset L', 'andi x8, x8, %offset L'][j % 6]
+            if j % 2 == 0:
+                src = 'L:\nalign {}\n{}\n'.format(rng.choice([4, 8, 16]), ins)
+            else:
+                src = '{}\nadd x5, x5, x6\nalign {}\nL:\n'.format(ins, rng.choice([4, 8, 16]))
             add(src)
         else:
             src = 'start:\nauipc x5, %hi(%offset(start))\njalr x0, x5, %lo(%offset(start))\nlui x6, %hi(start)\nlw x7, x6, %lo(start)\n'
